@@ -5,7 +5,7 @@ import json, os, re, subprocess, sys, glob
 V = '/verif'
 claimed = [c['property_id'] for c in json.load(open(V + '/MANIFEST.json'))['checks']]
 only = [a for a in sys.argv[1:] if not a.startswith('--')]
-WT = '/tmp/eval-benign-wt'
+WT = os.environ.get('EVAL_WT', '/tmp/eval-benign-wt')
 subprocess.run(['git', '-C', '/repo', 'worktree', 'remove', '--force', WT], capture_output=True)
 subprocess.run(['git', '-C', '/repo', 'worktree', 'add', '--detach', WT, 'HEAD'], check=True, capture_output=True)
 rows = []
